@@ -559,6 +559,14 @@ pub fn gen_c02(seed: u64, thorough: bool) -> Plan {
         up.targets[t].replies = up.targets[t].replies.max(1);
         up.targets[t].reply_size = 65507 - g.range(0, 60) as usize;
     }
+    if proto == Proto::Trojan && g.chance(25) {
+        // a stream carrier brings back replies that no SOCKS5-UDP datagram can hold (65498 bytes and more with the header in
+        // front): such a reply may be dropped by the client, every other reply - the next one of the same target, and those of
+        // the other targets and applications - arrives unharmed
+        let t = g.below(up.targets.len() as u64) as usize;
+        up.targets[t].replies = up.targets[t].replies.max(1);
+        up.targets[t].reply_size = 65507 - g.range(0, 14) as usize;
+    }
     if proto == Proto::Shadowsocks && g.chance(35) {
         up.loss_pm = *g.pick(&[0, 100, 300]);
         up.dup_pm = *g.pick(&[0, 200, 500]);
